@@ -48,10 +48,16 @@ inductive ErrTy where
   | nearMiss           -- `Error(x int) string`, `Error() (string, int)`, `Error() int`, `Error() NamedString`
   deriving DecidableEq, Repr, Inhabited
 
-/-- `derive.IsError` -/
-def isError (cfg : Cfg) : ErrTy → Bool
-  | .builtin | .namedNilable | .namedStruct => true
-  | .namedPtrRecv => !cfg.errRecvFixed
+/-- where a type stands in for `error` -/
+inductive ErrPos where
+  | result      -- last result of a stage function (compose, traverse, fmap and join error forms)
+  | joinArg     -- the error VALUE given to join
+  | toErrorArg  -- the error VALUE given to toerror
+  deriving DecidableEq, Repr, Inhabited
+
+/-- the original `derive.IsError`: named, and called `error` or declaring `Error() string` on either receiver -/
+def isErrorScan : ErrTy → Bool
+  | .builtin | .namedNilable | .namedStruct | .namedPtrRecv => true
   | _ => false
 
 /-- the Go truth: a value of the type is assignable to `error` -/
@@ -59,16 +65,27 @@ def implementsError : ErrTy → Bool
   | .builtin | .namedNilable | .namedStruct | .pointerToNamed | .namedIface => true
   | _ => false
 
-/-- the emitted helper can be called with a stage function whose last result has this type: the
-parameter type is printed with the predeclared `error`, and function types are invariant -/
-def resultPosCompiles (cfg : Cfg) : ErrTy → Bool
-  | .builtin => true
-  | .namedNilable | .namedStruct => cfg.errTypeFixed
-  | _ => false
+/-- does the generator accept the type at that position. The repairs are refusals:
+`errTypeFixed` — a result must be the predeclared `error` itself (function types are invariant, the
+helper's parameter is printed with `error`); `typedNilFixed` — so must join's error argument (a nil
+custom error would arrive as a non-nil `error`); `errRecvFixed` — toerror asks go/types whether the
+value implements `error` (accepting `*E` and interfaces, refusing pointer-receiver types by value) -/
+def isError (cfg : Cfg) : ErrPos → ErrTy → Bool
+  | .result, t => if cfg.errTypeFixed then t == .builtin else isErrorScan t
+  | .joinArg, t => if cfg.typedNilFixed then t == .builtin else isErrorScan t
+  | .toErrorArg, t => if cfg.errRecvFixed then implementsError t else isErrorScan t
 
-/-- a VALUE of the type can be handed to a parameter of type `error` (join's second argument, toerror's first) -/
-def argPosCompiles : ErrTy → Bool
-  | t => implementsError t
+/-- once accepted, does the package compile: in result position only the predeclared `error` fits the
+printed parameter type; a value must implement `error` -/
+def compilesAt : ErrPos → ErrTy → Bool
+  | .result, t => t == .builtin
+  | _, t => implementsError t
+
+/-- what a sound generator may do: in result position and for join's argument only the predeclared
+`error` can be served (everything else must be refused); toerror serves every value that implements `error` -/
+def shouldAccept : ErrPos → ErrTy → Bool
+  | .toErrorArg, t => implementsError t
+  | _, t => t == .builtin
 
 /-! ### `derive.Zero` -/
 
